@@ -435,4 +435,20 @@ CHECKS = {
         "components": {"real": REAL, "stubs": STUBS},
         "assumptions": ["single-node front-end; ReplicaOnly/READONLY and the sentinel options are not exercised", "credential refresh (RefreshAfter) is not exercised"],
     },
+    "C25": {
+        "level": "exploration",
+        "rule": ("plans: 2-6 tasks mixing dedicated sessions (Dedicated(fn) and Dedicate()/cancel; optional SetPubSubHooks + SUBSCRIBE, plain SUBSCRIBE, or SetOnInvalidations + "
+                 "CLIENT TRACKING ON; then WATCH, a keyed read, MULTI, 1-3 keyed writes, EXEC - every command a scheduling point) with shared-pipeline VTAG traffic and "
+                 "blocking pops on a pool of 1-2 connections, ghost writers touching the watched keys, publishing and pushing; after release the retained handle is used "
+                 "again (Do, DoMulti, Receive); oracle from the model's per-connection command log: between the first and last command of a session only that session's "
+                 "commands appear on its connection, all of them on one connection; every use after release fails with ErrDedicatedClientRecycled; before the next user's "
+                 "first command the model saw UNSUBSCRIBE if the session had subscribed and CLIENT TRACKING OFF (and no tracking state) if it had installed an invalidation "
+                 "callback; non-trivial = at least one session; distinct = distinct event-log hash"),
+        "parts": [
+            {"module": "rueidis", "scenario": "dedicated", "quick": 6000, "thorough": 500000},
+        ],
+        "expected_probes": ["session-with-hooks", "session-with-inval", "session-with-subscribe"],
+        "components": {"real": REAL, "stubs": STUBS},
+        "assumptions": ["single-node front-end (the cluster and sentinel dedicated clients wrap the same wire)", "a session that leaves MULTI open is not part of the property and is not generated"],
+    },
 }
